@@ -22,6 +22,7 @@ def errJ : Err → Json
   | .format _ => Json.mkObj [("err", str "format")]
   | .shape => Json.mkObj [("err", str "other:shape")]
   | .other => Json.mkObj [("err", str "other")]
+  | .encoding => Json.mkObj [("err", str "encoding")]
 
 def pickKept {α : Type} (keep : List Bool) (l : List α) : List α := ((List.zip keep l).filter (·.1)).map (·.2)
 
